@@ -385,10 +385,13 @@ class Scheduler:
                 sw = self.switch_at[0]
                 # a switch point is either a count of the leading thread or a
                 # [thread, count] pair
+                # (a third element names the thread that gets the turn: schedules of three threads)
                 who, cnt = (self.names[0], sw) if isinstance(sw, int) else (sw[0], sw[1])
                 if me == who and self.count[me] == cnt:
                     self.switch_at.pop(0)
                     nxt = self.other(me)
+                    if not isinstance(sw, int) and len(sw) > 2 and not self.finished.get(sw[2], True) and sw[2] != me:
+                        nxt = sw[2]
                     if nxt is not None:
                         self.turn = nxt
                         self.cond.notify_all()
